@@ -176,6 +176,8 @@ def carriers():
     for t in ['a[1] += x', 'a[x] = a[x] + 1', 'a[1] = a[2] + x', 'a[1] = q[1] + x', 'a[1] = -a[1]', 'a[1] = a[1] ** 2',
               'a[1] = f(a[1] + x)']:
         add('assign_update_array_value', 'never', 'e', t)
+    for t in ['a1[2] = a[12] + x', 'q2[5] = q[25] * 2', 'a[12] = a1[2] + x', 'a1[11] = a11[1] + 1']:
+        add('assign_update_array_value', 'never', 'e', t)
     add('cache_array_length', 'canon', 's', 'for (uint i = 0; i < a.length; i++) { }')
     add('cache_array_length', 'canon', 's', 'for (uint i = 0; i + 1 < f(a.length) + b.length; i++) { }')
     add('cache_array_length', 'never', 's', 'for (uint i = a.length; i < 3; i++) { y = a.length; }')
@@ -780,6 +782,8 @@ def special_programs():
     add('address-zero-multiline', PRELUDE + 'contract A { mapping(address => mapping(uint => address)) reg; function f(address a, uint id) public {\n  if (reg[a][id] ==\n      address(0)) { }\n'
         '  require(\n    a\n    !=\n    address(0), "zero");\n  bool z = address(0)\n    == a;\n} }')
     add('legacy-unnamed-fallback', 'pragma solidity ^0.5.0;\ncontract A { uint x; function() external payable { x = x + 1; } }\ncontract B { function() external; }\ncontract C { function () { } }')
+    add('legacy-unnamed-fallback-among-findings', 'pragma solidity ^0.5.0;\ncontract A {\n  uint private plain;\n  uint public _pub;\n  function _open() public { }\n  function hidden() internal { }\n  function() external payable { plain = plain + 1; }\n'
+        '  function _ok() private { }\n  constructor() public { }\n}\ncontract B {\n  function() external { }\n  function helper() private { }\n}')
     add('cyclic-type-definitions', PRELUDE + 'type Price is Price;\ntype Shares is Assets;\ntype Assets is Shares;\ncontract A { Price p; Shares s; uint128 a; uint256 b; uint128 c; }\n'
         'contract B { type Inner is Inner; Inner i; uint8 x; uint256 y; uint8 z; struct S { Price p; uint8 q; Assets r; } }')
     add('long-operator-chain', PRELUDE + 'contract A { uint counter; function f(uint a) public returns (uint) { return counter++ ' + '+ 1 ' * 1300 + '; } }')
@@ -885,6 +889,35 @@ def special_programs():
         'a = a * 340282366920938463463374607431768211455; a = a * 115792089237316195423570985008687907853269984665640564039457584007913129639935; a = a * 4294967297; a = a / 9007199254740992; return a * 4503599627370497; } }')
     add('nested-assignments', PRELUDE + 'contract A {\n  uint last; uint total; address owner; bool flag;\n  event Ev(uint v);\n  function f(uint amount, address who) public returns (address) {\n    uint local = last = amount;\n    total = last = amount + 1;\n'
         '    if ((flag = amount > 1)) { emit Ev(total = amount); }\n    g(last = 3);\n    return owner = who;\n  }\n  function g(uint v) internal { }\n}')
+    # --- wave 7
+    add('recursive-helper-before-selfdestruct', PRELUDE + 'contract A {\n  address owner;\n  function _drain(uint n) internal { if (n > 0) { _drain(n - 1); } }\n  function _ping() internal { _pong(); }\n  function _pong() internal { _ping(); }\n'
+        '  function close() public {\n    _drain(3);\n    selfdestruct(payable(owner));\n  }\n  function close2() external {\n    _ping();\n    suicide(payable(owner));\n  }\n  function _checkOwner() internal view { require(msg.sender == owner); }\n'
+        '  function close3() external {\n    _checkOwner();\n    selfdestruct(payable(owner));\n  }\n}')
+    add('member-array-assignments', PRELUDE + 'contract A {\n  function f(uint id, uint i) public {\n    orders[id].fills[0] = orders[id].fills[0] + 1;\n    current().fills[i] = current().fills[i] + 2;\n    this.counts[1] = 2;\n'
+        '    position.amounts[0] = position.amounts[0] + 1;\n    (a)[0] = (a)[0] + 1;\n    m[1][2] = m[1][2] + 3;\n    f(1)[0] = f(1)[0] * 2;\n    new uint[](3)[0] = 1;\n    arr[0] = arr[0] - 1;\n  }\n}')
+    add('array-name-index-collisions', PRELUDE + 'contract A { uint[] totals; uint[] totals1; uint[] fees; uint[] fees2; function f(uint fee) public {\n  totals1[2] = totals[12] + fee;\n  fees2[5] = fees[25] * 2;\n  totals[12] = totals1[2] + fee;\n'
+        '  totals[1] = totals[1] + fee;\n  fees[25] = fees[25] * 2;\n  a1[11] = a11[1] + 1;\n  a[0x10] = a[16] + 1;\n  a[1_0] = a[10] + 1;\n} }')
+    for k, pr in enumerate(['>=0.7.0', '>=0.5.0', '>0.7.6', '<0.9.0 >=0.7.6', '^0.8.0 || ^0.7.6', '>=0.7.0 <0.9.0', '^0.8.0', '>=0.8.0 <0.9.0', '0.7.6']):
+        add('unchecked-under-pragma-%d' % k, 'pragma solidity %s;\ncontract A { function f(uint n) public { for (uint i = 0; i < n; ) {\n    unchecked {\n      ++i;\n    }\n  }\n  uint from = n;\n  unchecked { --from; from++; }\n  ++n;\n  n--;\n} }' % pr)
+    add('same-name-functions', PRELUDE + 'contract A {\n  function mint(address to, uint256 v) internal { }\n  function mint(address to) external { }\n  function _burn(uint v) public { }\n  function _burn(address a, uint v) internal { }\n  function _x() external { }\n  function _x(uint q) public { }\n}\n'
+        'interface I { function mint(address to) external; }\nlibrary L { function mint(address to) internal { } function _burn(uint v) public { } }')
+    ladder = 'if (s == 0) { last = 0; }' + ''.join(' else if (s == %d) { last = %d; }' % (k, k) for k in range(1, 300)) + ' else { tok.transfer(to, s / 3 * 2); selfdestruct(payable(to)); }'
+    add('deep-vulnerabilities', PRELUDE + 'contract D { uint last; function dispatch(uint s, address to) public {\n  ' + ladder + '\n}\n  function sum(uint a, uint b) public returns (uint) {\n    return a / b * 7' + ' + 1' * 300 + ';\n  }\n}')
+    add('sender-check-after-selfdestruct', PRELUDE + 'contract A {\n  address owner;\n  function s1() public {\n    selfdestruct(payable(owner));\n    require(msg.sender == owner);\n  }\n  function s2(bool c) external {\n    if (c) {\n      selfdestruct(payable(owner));\n    }\n'
+        '    _checkOwner(msg.sender);\n    if (!c) {\n      suicide(payable(owner));\n    }\n  }\n  function s3() public {\n    authorize(owner != msg.sender);\n    selfdestruct(payable(owner));\n  }\n  function s4() public {\n    selfdestruct(payable(owner));\n  }\n}')
+    for v in ('0.7.6', '0.8.10'):
+        add('safemath-uncalled-members-' + v, 'pragma solidity %s;\ncontract A {\n  using SafeMath for uint256;\n  struct Fees { uint div; uint mul; }\n  Fees fees;\n  function f(uint256 x) public returns (uint256) {\n    uint d = fees.div;\n    bytes4 sel = this.add.selector;\n'
+            '    fees.mul = 3;\n    function (uint256) external returns (uint256) g = this.sub;\n    return x.add(d);\n  }\n  function add(uint256 q) external returns (uint256) { return q; }\n  function sub(uint256 q) external returns (uint256) { return q; }\n}' % v)
+        add('safemath-second-using-' + v, 'pragma solidity %s;\ncontract A {\n  using SafeERC20 for IERC20;\n  using SafeMath for uint256;\n  function f(uint256 x) public returns (uint256) {\n    return x.mul(2).div(3);\n  }\n}\n' % v)
+        add('safemath-using-in-later-contract-' + v, 'pragma solidity %s;\nusing Address for address;\ncontract First { using Strings for uint256; }\ncontract A {\n  using SafeMath for uint256;\n  function f(uint256 x) public returns (uint256) {\n    return x.sub(1);\n  }\n}\n' % v)
+    add('struct-keyword-separators', PRELUDE + 'struct\nT1 { uint128 a; uint256 b; uint128 c; }\nstruct\tT2{ uint128 a; uint256 b; uint128 c; }\nstruct/* c */T3 { uint128 a; uint256 b; uint128 c; }\ncontract A { struct\r\nT4 { uint128 a; uint256 b; uint128 c; } }\n'
+        'contract\nB { uint128 a; uint256 b; uint128 c; }\n')
+    add('struct-keyword-newline-only', 'pragma solidity ^0.8.10;\ncontract A {\n  struct\n  Thing {\n    uint128 a;\n    uint256 b;\n    uint128 c;\n  }\n}\n')
+    add('many-findings-150', PRELUDE + 'contract A { uint total; function f(uint x) public {\n' + ''.join('  total = x + %d; total = x + %d; total = x + %d;\n' % (3 * k, 3 * k + 1, 3 * k + 2) for k in range(50)) + '} }\n')
+    add('one-line-items', 'pragma solidity ^0.8.10;\nstruct S1 { uint128 a; uint256 b; uint128 c; }\nstruct S2 { uint128 a; uint256 b; uint128 c; }\nfunction f1(uint a) pure returns (uint) { return a + 1; }\nfunction f2(uint a) pure returns (uint) { return a * 4; }\n'
+        'contract C1 { function b(address t) public returns (uint) { return address(t).balance; } }\ncontract C2 { function b(address t) public returns (uint) { return address(t).balance + 1; } }\nlibrary L1 { function k(uint i) internal { i++; } }\nlibrary L2 { function k(uint i) internal { i--; } }\n')
+    add('library-then-contract-with-ctor', PRELUDE + 'library Lb { function id(uint a) internal pure returns (uint) { return a; } }\ninterface It { function q() external; }\ncontract NoCtor { uint plain; }\n'
+        'contract WithCtor {\n  uint fee;\n  uint cap;\n  constructor(uint f) { fee = f; cap = f; }\n  function setFee(uint f) public { fee = f; }\n}\ncontract Last {\n  uint z;\n  constructor() { z = 1; }\n}')
     return P
 
 
